@@ -154,6 +154,36 @@ def knn_vec(rng, dim, metric):
     return [f32round(x) for x in v], c
 
 
+def gen_stale_crowd_case(rng):
+    """a SMALL recent-write tier whose nearest mirrors are all stale (bulk load over mirrored documents), plus one fresh write
+    that is the true nearest neighbour: the widening scan must go on until it has looked at the whole tier (seeded change
+    C06-4 stopped when the window covered the tier as it was AFTER the stale mirrors had been discarded)"""
+    dim = rng.choice([2, 3, 8])
+    metric = "l2"
+    k = rng.choice([1, 2, 3])
+    m = rng.randint(2 * k, 4 * k - 1)                        # stale mirrors: at least the first window, less than two
+    ops = ["cfg strat=lru cap=4 hard=200 soft=1000 dim=%d metric=%s" % (dim, metric)]
+    centre = [f32round(rng.choice([0.5, 1.0, -1.0, 2.0])) for _ in range(dim)]
+    near = lambda eps: [f32round(x + rng.choice([-1, 1]) * eps * (1 + rng.random())) for x in centre]
+    far = lambda: [f32round(x + rng.choice([-1, 1]) * (20 + 10 * rng.random())) for x in centre]
+    if rng.random() < 0.7:
+        # crowd the ANN tier's neighbourhood of the query with tombstones (one document overwritten again and again right next
+        # to the query, finally moved away) and drain the recent-write tier: the ANN tier alone may now miss a near document,
+        # so an answer without the fresh write is visibly wrong, not just differently routed
+        for _ in range(rng.choice([24, 32, 48])):
+            ops.append("insert id=100 v=%s m=-" % vbits(near(0.01)))
+        ops.append("insert id=100 v=%s m=-" % vbits(far()))
+        ops.append("flush force=1")
+    for i in range(1, m + 1):
+        ops.append("insert id=%d v=%s m=-" % (i, vbits(near(0.05))))            # mirrored, very close to the query
+    ops.append("bulk_load docs=%s" % "/".join("%d;%s;-" % (i, vbits(far())) for i in range(1, m + 1)))   # now far away: mirrors stale
+    fresh = list(range(m + 1, m + 1 + rng.choice([1, 1, 2])))
+    for i in fresh:
+        ops.append("insert id=%d v=%s m=-" % (i, vbits(near(0.2))))             # acknowledged, mirrored, the true nearest
+    ops.append("knn q=%s k=%d ef=%d" % (vbits(centre), k, rng.choice([0, 0, k, 2 * k, 64])))
+    return ops
+
+
 def gen_knn_case(rng, n_ops=60, pokes=False):
     dim = rng.choice(KNN_DIMS)
     metric = rng.choice(METRICS)
